@@ -30,6 +30,69 @@ def entry_param_index(e, pred):
 # ---------------------------------------------------------------------------
 # C10
 
+def L6(ctx, rule="L6", sinks=None):
+    """every invocation of the caller's function in the concurrent families happens inside the body driven by the one
+    `for_each_concurrent` over the tracked ready stream: that driver is what applies the limit and what the interruption
+    wrapper gates"""
+    m, fb, fl = ctx.model, ctx.fb, ctx.model.flow
+    if sinks is None:
+        sinks = [(b, bb, t) for b in fb.prod_bodies() for bb, t in b.calls() if callee_path(t) == FOR_EACH_CONCURRENT]
+        if not sinks:
+            ctx.unverifiable(rule, "floor", "-", "no for_each_concurrent call found")
+            return
+    # every invocation of the caller's function in these families happens inside the body driven by that limited
+    # for_each_concurrent: a side path (`join_all`, `buffer_unordered`, a fast path for graphs without edges) starts functions
+    # the limit never sees
+    under = set()
+    for (b, bb, t) in sinks:
+        if len(t["args"]) > 2:
+            cbody = closure_of_arg(ctx, b, expr_operand(b, t["args"][2]))
+            if cbody is not None:
+                under |= set(m.reach(cbody.id)) | {x for x in fb.bodies if x == cbody.id or x.startswith(cbody.id + "::")}
+    for e in m.entries:
+        if m.family(e) not in ("for_each", "try_for_each"):
+            continue
+        for pb in m.per_item_bodies(e["id"]):
+            if pb.id in under:
+                continue
+            # an adapting closure (or a coroutine inside one) handed as THE callback to a sibling entry point: it runs where that
+            # sibling invokes its callback, which is checked there
+            top = pb
+            while top is not None and top.kind == "coroutine" and top.parent:
+                top = fb.bodies.get(top.parent)
+            us_ = fl.closure_uses(top) if top is not None and top.kind == "closure" else []
+            if us_ and all(((ut_.get("callee") or {}).get("local") or ((ut_.get("callee") or {}).get("resolved") or {}).get("local"))
+                           and (callee_path(ut_) or "") in fb.bodies or
+                           ((ut_.get("callee") or {}).get("resolved") or {}).get("path") in fb.bodies for (_, _, ut_, _) in us_):
+                continue
+            if True:
+                ctx.bad(rule, "outside-limit|%s|%s" % (e["name"], short(pb.id)), m.where(pb),
+                        "%s invokes the caller's function in %s, which is not driven by the limited for_each_concurrent: these "
+                        "functions run without regard to `limit`" % (e["name"], short(pb.id)))
+    # ... nor is the callback itself handed to some other driver as a value (`.map(&fn_for_each)` under `join_all`)
+    for e in m.entries:
+        if m.family(e) not in ("for_each", "try_for_each"):
+            continue
+        for bx in m.reach_bodies(e["id"]):
+            if bx.id in under:
+                continue
+            gen_in = {x["s"].lstrip("&").replace("mut ", "").strip() for x in (fb.fns.get(bx.root) or {}).get("inputs", [])}
+            gen_in = {g for g in gen_in if g.isidentifier() and g.startswith("Fn")}
+            for bbx, tx in bx.calls():
+                c_ = tx.get("callee") or {}
+                if is_param_call(tx) or c_.get("local") or ((c_.get("resolved") or {}) if isinstance(c_.get("resolved"), dict) else {}).get("local"):
+                    continue
+                for a_ in tx["args"]:
+                    aty = ((a_.get("pl") or {}).get("ty") or a_.get("ty") or "").lstrip("&").replace("mut ", "").strip()
+                    if aty in gen_in and (callee_path(tx) or "").split("::")[-1] in ("map", "then", "for_each", "for_each_concurrent", "and_then", "filter_map",
+                                                                                       "buffer_unordered", "buffered", "fold", "try_for_each", "try_for_each_concurrent"):
+                        ctx.bad(rule, "outside-limit|%s|%s" % (e["name"], short(bx.id)), m.where(bx, bbx),
+                                "%s hands the caller's function to `%s` outside the limited for_each_concurrent: those invocations ignore `limit`" % (
+                                    e["name"], callee_path(tx)))
+    if rule == "L6":
+        ctx.ok(rule, "under-driver", "-", "all invocations of the caller's function in the concurrent families are under %d for_each_concurrent driver(s)" % len(sinks))
+
+
 def L1(ctx, rule="L1"):
     m, fb, fl = ctx.model, ctx.fb, ctx.model.flow
     sinks = []
@@ -71,6 +134,7 @@ def L1(ctx, rule="L1"):
         ctx.check(m.is_ready_item(ssrc), rule, "stream|%s" % short(b.id), m.where(b, bb),
                   "for_each_concurrent consumes the READY stream (ids dequeued from the ready channel)",
                   "for_each_concurrent consumes %s" % [fmt_src(s) for s in ssrc][:4])
+    L6(ctx, rule, sinks)
     ctx.counts[rule] = n
     for (b, bb, t) in sinks:
         ctx.cover(rule, b.id)
@@ -182,6 +246,9 @@ def L5(ctx, rule="L5"):
                 if t_["k"] == "call" and callee_path(t_) == "std::mem::drop" and t_["args"] and t_["args"][0].get("k") == "move" and \
                         t_["args"][0]["pl"]["l"] in gl:
                     drops.add(x)
+            # the drop in the Ready arm itself belongs to the assignment of the await's result (the slot's previous value), not to
+            # the guard just obtained
+            drops.discard(a1.ready_bb)
             live = b.reachable(a1.ready_bb, avoid=drops) | {a1.ready_bb}
             bad = []
             for (a2, p2, bb2, l2, h2) in acq:
@@ -189,7 +256,8 @@ def L5(ctx, rule="L5"):
                     continue
                 if bb2 in live and l2 and set(l2) == set(l1):
                     bad.append("%s at %s" % (p2.split("::")[-1], b.loc(bb2)))
-            ctx.check(not bad, rule, "no-self-deadlock|%s|%d" % (short(b.id), bb1), m.where(b, bb1),
+            ordinal = sorted(x[2] for x in acq if x[4] is None).index(bb1)
+            ctx.check(not bad, rule, "no-self-deadlock|%s|%d" % (short(b.id), ordinal), m.where(b, bb1),
                       "the guard taken here is released before the same lock is acquired for writing again",
                       "the guard taken by %s is still alive when the same lock is acquired for writing (%s): the future waits for itself "
                       "and never completes" % (p1.split("::")[-1], bad[:2]))
@@ -2243,6 +2311,27 @@ def G_rules(ctx, rule="G"):
                       "variants" if is_enum else "fields", want),
                   "serde tables disagree for %s: declared %s, written %s, read %s (an asymmetric #[serde(..)] attribute breaks the round trip)" % (
                       ty, want, ser_names, de_names))
+    # G3c the derived (de)serialisation code calls no hand-written function of the crate: a `#[serde(with / deserialize_with /
+    # serialize_with / from / into / try_from / default = ..)]` attribute puts maintainer code - a validator, a converter -
+    # between the value and its serialised form, and the round trip is then whatever that code decides
+    n_sd = 0
+    for b in fb.bodies.values():
+        if "_serde::" not in b.id or not any(("for %s" % ty) in b.id for ty in ("graph_info::GraphInfo", "edge::Edge", "fn_id_inner::FnIdInner")):
+            continue
+        n_sd += 1
+        for bb, t in b.calls():
+            c = t.get("callee") or {}
+            r = c.get("resolved") if isinstance(c.get("resolved"), dict) else {}
+            if not (c.get("local") or r.get("local")):
+                continue
+            pth = r.get("path") or c.get("path") or ""
+            if "_serde::" in pth or "::_::" in pth or pth.startswith("<") and "_serde" in pth:
+                continue
+            ctx.bad(rule + "3", "serde-custom|%s" % pth.split("::")[-1], m.where(b, bb),
+                    "the derived serde code of %s calls the hand-written `%s` (a serde `with`/`deserialize_with`/`from`.. attribute): what round-trips "
+                    "is decided by that function, not by the data" % (b.id.split(" for ")[-1].split(">")[0][:40], pth))
+    ctx.check(n_sd >= 3, rule + "3", "serde-derived-bodies", where, "derived serde bodies of GraphInfo/Edge/FnIdInner inspected (%d)" % n_sd,
+              "expected derived serde bodies for GraphInfo, Edge and FnIdInner, found %d" % n_sd)
     # G3 derives
     def is_serde(t):
         return "serde" in (t or "") and ((t or "").endswith("::Serialize") or (t or "").endswith("::Deserialize"))
